@@ -310,6 +310,18 @@ func local() []cat.Program {
 			},
 			Data: map[string]vals.V{"who": s("xplWHO")}},
 
+		// inline bodies that READ root-scope names and then WRITE them: a <template> assignment at
+		// the top level and a counter propagated out of a top-level v-for. Rendered inline on a
+		// long-lived Template value, what one render writes must not be there for the next one.
+		{Name: "x-inline-rootvars", Canary: "xirWHO", Feat: []string{"template-vars", "inline-rootvars", "v-for"},
+			Files: map[string]string{"page.vuego": `<h1>{{ heading }} / {{ n }} / {{ seen }} / {{ who }}</h1><template heading="Details" :n="n + 1" seen="yes"><h2>{{ heading }} / {{ n }}</h2></template>` +
+				`<template v-for="it in items" :n="n + 1">{{ it }}:{{ n }} </template><p>{{ heading }} / {{ n }} / {{ seen }}</p><template :extra="who"></template>` + end},
+			Data: map[string]vals.V{"who": s("xirWHO"), "heading": s("Welcome"), "n": n(0), "items": strs("a", "b", "c")}},
+		// the reader of those names, without any of them in its own data
+		{Name: "x-inline-reader", Canary: "xiqWHO", Feat: []string{"leak-probe", "inline-rootvars"},
+			Files: map[string]string{"page.vuego": `<p :data-n="n" :data-seen="seen">{{ heading }}|{{ n }}|{{ seen }}|{{ extra }}|{{ total }}|{{ printed }}|{{ who2 }}|{{ label }}|{{ who }}</p><b v-if="seen">leak-seen</b><b v-if="extra">leak-extra</b>` + end},
+			Data:  map[string]vals.V{"who": s("xiqWHO")}},
+
 		// retype twins: DIFFERENT files with the SAME template text (so the same expression texts)
 		// whose data gives the same names differently typed values; on the shared engine they meet
 		// in both orders. Only expressions that are valid for every typing are used here.
@@ -460,6 +472,23 @@ const (
 
 var allEntries = []string{"load", "file", "string", "byte", "reader", "vue", "frag", eNodes, eAssign}
 
+// Entries on ONE long-lived Template VALUE per (program, data variant): keep = root.New().Fill(d)
+// is created at the first such call of the seat and then used for every later one - inline
+// renders directly on it, and children derived from it AFTER those renders:
+//
+//	keep-string  keep.RenderString(body)          keep-reader  keep.RenderReader(body)
+//	keep-new     keep.New().RenderString(body)    keep-load    keep.Load(page).Render()   (no Fill)
+const (
+	eKeepString = "keep-string"
+	eKeepReader = "keep-reader"
+	eKeepNew    = "keep-new"
+	eKeepLoad   = "keep-load"
+)
+
+var keepEntries = []string{eKeepString, eKeepReader, eKeepNew, eKeepLoad}
+
+func isKeep(entry string) bool { return strings.HasPrefix(entry, "keep-") }
+
 func usesLayout(p cat.Program) bool {
 	for f, src := range p.Files {
 		if strings.HasPrefix(f, "layouts/") {
@@ -482,8 +511,10 @@ func applicable(p cat.Program, entry string) bool {
 		return len(p.Opts) == 0 && !usesLayout(p)
 	case eNodes:
 		return !p.FileOnly && len(p.Opts) == 0
-	case eAssign:
+	case eAssign, eKeepLoad:
 		return true
+	case eKeepString, eKeepReader, eKeepNew:
+		return !p.FileOnly
 	}
 	return p.Applicable(entry)
 }
